@@ -1,0 +1,21 @@
+//go:build verif
+
+package httpserver
+
+// Contracts for /verif (gvc). Comment-only file; see /verif/DESIGN.md §5 C19.
+
+//@ prop C19
+
+// The authentication wrapper of the ts-meta and ts-store HTTP services (/getdata, /metaRecover, /userSnapshot, /debug...)
+// fails closed: when authentication is required and an administrator exists, the wrapped handler runs only after the
+// meta client accepted the user name and password of THIS request - whatever kind of credentials the request carries
+// (a bearer token is not a user/password pair: it must be refused, not answered 401 and served all the same).
+//@ func Authenticate$1
+//@   ghost admin bool = false
+//@   ghost authed bool = false
+//@   call .AdminUserExists
+//@     set admin = ret0
+//@   call .Authenticate
+//@     set authed = (ret1 == nil)
+//@   call inner
+//@     requires [handler_runs_only_for_an_authenticated_user] (requireAuthentication && admin) ==> authed
